@@ -310,17 +310,48 @@ impl Prop for C08 {
                 }
             }
         }
+        // ---- a duplicate inside a reordered delivery (sampled: up to 40 order x duplicate combinations)
+        let mut combined = 0;
+        if !perms.is_empty() {
+            for _ in 0 .. 40usize.min(perms.len() * n * (n + 1)) {
+                let p = perms[t.draw(DATA, perms.len() as u64) as usize].clone();
+                let frag = t.draw(DATA, n as u64) as usize;
+                let at = t.draw(DATA, n as u64 + 1) as usize;
+                let r = run_call(target.world(addr, Some(p.clone()), Some((frag, at))), &call);
+                out.absorb(&r.world);
+                out.fault("duplicated_fragment");
+                out.fault("reordered_delivery");
+                combined += 1;
+                if let Some(c) = &r.crash {
+                    out.violate(crash_violation(&format!("{proto}|dup|"), c));
+                    continue;
+                }
+                if let Ok(v) = result_json(&r, unreal) {
+                    if let Some((path, e, o)) = json_diff(&r0, &v) {
+                        out.violate(Violation::new(
+                            format!("{proto}|dup|different-ok"),
+                            format!("{}: arrival order {p:?} with fragment {frag} duplicated at position {at}: a successful response that differs from the in-order one", target.detail()),
+                            format!("{path}: {e}"),
+                            o,
+                        ));
+                        if detail && sched_sample.is_empty() {
+                            sched_sample = r.world.render_history(60);
+                        }
+                    }
+                }
+            }
+        }
         out.nontrivial = true;
         out.distinct_key = out.log_hash;
         if detail {
-            out.sample = Some(json!({"call": describe_call(&call), "protocol": target.detail(), "fragments": n, "permutations_run": perms.len(), "duplications_run": n * (n + 1)}));
+            out.sample = Some(json!({"call": describe_call(&call), "protocol": target.detail(), "fragments": n, "permutations_run": perms.len(), "duplications_run": n * (n + 1), "reordered_and_duplicated_run": combined}));
             out.schedule = if sched_sample.is_empty() { base.world.render_history(40) } else { sched_sample };
         }
         (out, t)
     }
 
     fn rule(&self) -> String {
-        "case index fixes the fragment count n = 2..6 and the transport (Valve Source split, Valve GoldSrc split, GameSpy 1 parts, GameSpy 3 splitnum packets, Unreal 2 rules list, Unreal 2 players list); the tape draws the server state and fragment boundaries; every case runs the in-order baseline, then every permutation of the fragments for n <= 5 (1, 5, 23, 119 non-identity orders) or 200 sampled orders for n = 6, then every single-fragment duplication at every position; a case is non-trivial when the in-order baseline decodes; distinct = distinct hash over all event logs of the case".to_string()
+        "case index fixes the fragment count n = 2..6 and the transport (Valve Source split - one case in three of the rules / players answers bzip2-compressed -, Valve GoldSrc split, GameSpy 1 parts, GameSpy 3 splitnum packets, Unreal 2 rules list, Unreal 2 players list); the tape draws the server state and fragment boundaries; every case runs the in-order baseline, then every permutation of the fragments for n <= 5 (1, 5, 23, 119 non-identity orders) or 200 sampled orders for n = 6, then every single-fragment duplication at every position of the in-order delivery, then up to 40 sampled combinations of an arrival order with a duplicate in it; a case is non-trivial when the in-order baseline decodes; distinct = distinct hash over all event logs of the case".to_string()
     }
 
     fn assumptions(&self) -> Vec<String> {
